@@ -184,3 +184,27 @@ Definition outbound (c : cfg) (pol : policy) (ch : cache) (handle : bool) (api :
   else
     let '(st, ch') := check_policy c pol ch false (p_src k, p_dst k, p_proto k, sport_of k, dport_of k) in
     (if st =? st_allowed then Deliver else Drop, ch').
+
+(* ---------- error pings re-mark cached connection states (router/connections.go: markRouter,
+   markConnectionDst) ---------- *)
+Definition mark_router (ch : cache) (remote st : N) : cache :=
+  map (fun e => let '((loc, rem, proto, lport, rport), (inb, s)) := e in
+                if rem =? remote then ((loc, rem, proto, lport, rport), (inb, st)) else e) ch.
+Definition mark_conn (ch : cache) (dst proto port st : N) : cache :=
+  map (fun e => let '((loc, rem, pr, lport, rport), (inb, s)) := e in
+                if (rem =? dst) && (pr =? proto) && (rport =? port) then ((loc, rem, pr, lport, rport), (inb, st)) else e) ch.
+
+(* a history on one router: inbound frames, outbound packets, and re-markings by error pings *)
+Inductive hstep :=
+| HIn (unsealed : bool) (fsrc fdst : N) (k : pkt)
+| HOut (k : pkt)
+| HMarkRouter (remote st : N)
+| HMarkConn (dst proto port st : N).
+
+Definition hstep_run (c : cfg) (pol : policy) (handle : bool) (api : N) (ch : cache) (s : hstep) : option verdict * cache :=
+  match s with
+  | HIn u fs fd k => let '(v, ch') := inbound c pol ch handle u fs fd k in (Some v, ch')
+  | HOut k => let '(v, ch') := outbound c pol ch handle api k in (Some v, ch')
+  | HMarkRouter r st => (None, mark_router ch r st)
+  | HMarkConn d p o st => (None, mark_conn ch d p o st)
+  end.
